@@ -219,7 +219,9 @@ func (c *credentials) authorize() (string, error) {
 	sl = append(sl, fmt.Sprintf(`nonce="%s"`, c.nonce))
 	sl = append(sl, fmt.Sprintf(`uri="%s"`, c.digestURI))
 	sl = append(sl, fmt.Sprintf(`response="%s"`, resp))
-	sl = append(sl, fmt.Sprintf(`algorithm=%s`, c.algorithm))
+	if c.algorithm != "" {
+		sl = append(sl, fmt.Sprintf(`algorithm=%s`, c.algorithm))
+	}
 	if c.opaque != "" {
 		sl = append(sl, fmt.Sprintf(`opaque="%s"`, c.opaque))
 	}
